@@ -298,6 +298,15 @@ func init() {
 			mid = -1
 		}
 		js = append(js, symJobs("c06", "ZZ_C06_Sym", []seqCfg{{"b_nomaint", 0, 0, 0, 0}, {"be_writing", 2, 0, 0, 0}, {"bw_w100_pending", 0, 0, 2, 100}}, mid, 1)...)
+		pp := 1
+		maxes := []int{1}
+		if tier == "thorough" {
+			maxes = []int{1, 2}
+		}
+		for _, mx := range maxes {
+			js = append(js, mk(sprintf("c06.par.max%d.pre%d", mx, pp), rootPkg, "ZZ_C06_Par", map[string]int{"max": mx},
+				func(b *Bounds) { b.Unwind = 140; b.Preempt = pp; b.Race = true; b.MaxPaths = 8000000; b.MaxWallS = 3000 }))
+		}
 		c := syncJobs("c06", "ZZ_C06_Sync", []seqCfg{{"canary", 0, 0, 1, 1}}, 1, "canary", 1)[0]
 		c.Canary = "c06.canary"
 		return append(js, c)
@@ -329,6 +338,28 @@ func init() {
 			mid = -1
 		}
 		js = append(js, symJobs("c20", "ZZ_C20_Sym", []seqCfg{{"be_writing", 2, 0, 0, 0}}, mid, 1)...)
+		ap := 2
+		if tier == "thorough" {
+			ap = 3
+		}
+		for _, th := range []int{2, 3} {
+			if th == 3 && tier == "quick" {
+				continue
+			}
+			j := mk(sprintf("c20.adder.t%d.pre%d", th, ap), repoModule+"/internal/xsync", "ZZ_C20_Adder", map[string]int{"threads": th, "adds": 2, "canary": 0},
+				func(b *Bounds) { b.Unwind = 20; b.Preempt = ap; b.Race = true; b.Procs = 2; b.MaxPaths = 4000000; b.MaxWallS = 2400 })
+			j.Prefer = "bits"
+			js = append(js, j)
+		}
+		ac := mk("c20.adder.canary", repoModule+"/internal/xsync", "ZZ_C20_Adder", map[string]int{"threads": 2, "adds": 1, "canary": 1},
+			func(b *Bounds) { b.Unwind = 20; b.Preempt = 0; b.Race = true; b.Procs = 2 })
+		ac.Canary = "c20.adder.canary"
+		js = append(js, ac)
+		cpp := 1
+		if tier == "thorough" {
+			cpp = 2
+		}
+		js = append(js, mk(sprintf("c20.par.pre%d", cpp), rootPkg, "ZZ_C20_Par", nil, func(b *Bounds) { b.Unwind = 60; b.Preempt = cpp; b.Race = true; b.Procs = 2; b.MaxPaths = 6000000; b.MaxWallS = 2400 }))
 		c := syncJobs("c20", "ZZ_C20_Sync", []seqCfg{{"canary", 0, 0, 1, 1}}, 1, "canary", 1)[0]
 		c.Canary = "c20.canary"
 		return append(js, c)
